@@ -347,8 +347,9 @@ impl Check for C10 {
         {
             return RunReport::default();
         }
-        // as generated, the first connection presents a session cookie only in the unreadable-session case
-        if c.session_cookie.is_some() != sc.unreadable_session {
+        // as generated, a session cookie on the first connection is a well-formed one unless the scenario says otherwise
+        let readable = |b: &Vec<u8>| serde_json::from_slice::<Value>(b).is_ok_and(|v| v["id"].as_str().and_then(uuid_from_any).is_some() && v["server_address"].is_string() && v["server_port"].is_u64());
+        if sc.unreadable_session != c.session_cookie.as_ref().is_some_and(|b| !readable(b)) {
             return RunReport::default();
         }
         // the first connection must be one that gets routed (the shrinker may take its targets away)
